@@ -64,7 +64,22 @@ def all_configs(sort_only=False):
         yield dict(nnps=nn, cache=ca, threads=th, reorder=ro, sort=so)
 
 
+TRANSIENT = []
+
+
 def run_one(chk, problem, c, tag):
+    r = run_once(chk, problem, c, tag)
+    if 'error' in r:
+        # a machine under heavy load can fail a run for reasons unrelated to
+        # the code (compile lock time-outs): one retry, the first failure is
+        # kept in the evidence
+        TRANSIENT.append(dict(problem=problem, cfg=r['cfg'],
+                              error=r['error'][-300:]))
+        r = run_once(chk, problem, c, tag + 'b')
+    return r
+
+
+def run_once(chk, problem, c, tag):
     out = os.path.join(chk.scratch, '%s-%s.json' % (problem, tag))
     env = dict(chk.env)
     env['OMP_NUM_THREADS'] = str(max(1, c['threads']))
@@ -159,8 +174,11 @@ def run():
         ref = plans[prob][0]
         for e in v['errors']:
             c = cfg_by_name.get((prob, e))
-            chk.violation('%s: run failed under %s' % (prob, e),
-                          dict(problem=prob, ref=ref, cfg=c))
+            err = next((r.get('error', '') for cc, r in recs[prob]
+                        if r['cfg'] == e), '')
+            chk.violation('%s: run failed twice under %s: %s' % (
+                prob, e, err[-200:].replace('\n', ' ')),
+                dict(problem=prob, ref=ref, cfg=c, error=err))
         for d in v['differing']:
             c = cfg_by_name.get((prob, d['cfg']))
             if c and c['nnps'] in ZFAM and prob in MULTI and \
@@ -182,6 +200,7 @@ def run():
         problems=list(plans), configurations_per_problem={
             p: len(c) for p, c in plans.items()},
         evaluations=nruns, distinct_nontrivial=len(distinct),
+        first_attempt_failures=TRANSIENT[:20],
         rule='a case is one Application.run of one problem under one '
              'configuration, compared state by state (bit patterns, by '
              'particle identity) with the reference configuration; distinct '
